@@ -596,6 +596,9 @@ def al_directed():
     d.append(("start interrupted by close", True, [H, al_call(1, "StartDial", "c1"), L, al_call(2, "Close"), L, L, L, F, al_call(3, "StartAccept", "c2")]))
     d.append(("remote candidates against restart", True, [H, al_call(1, "AddRemoteCandidate", "r1"), al_call(2, "Restart", "c4"), al_call(3, "GetRemoteCandidates")] + [L] * 5 +
               [F, al_call(4, "AddRemoteCandidate", "r2"), al_call(5, "GetRemoteCandidates")]))
+    AH, AF = {"k": "asynchold"}, {"k": "asyncfree"}
+    d.append(("add task of AddRemoteCandidate delayed past a Restart", True, [AH, al_call(1, "AddRemoteCandidate", "r1"), al_call(2, "Restart", "c4"), al_call(3, "GetRemoteCandidates"), AF,
+                                                                          al_call(4, "GetRemoteCandidates"), al_call(5, "AddRemoteCandidate", "r2"), al_call(6, "GetRemoteCandidates")]))
     d.append(("gather against restart", True, [al_call(1, "GatherCandidates"), H, al_call(2, "Restart", "c4"), al_call(3, "GatherCandidates"), al_call(4, "GetGatheringState")] +
               [L] * 6 + [F, al_call(5, "GetGatheringState")]))
     return [{"handler": h, "steps": st, "tag": "directed: " + tag} for tag, h, st in d]
@@ -604,11 +607,14 @@ def al_directed():
 def al_random(rng, n):
     out = []
     for _ in range(n):
-        steps, calls, hold = [], 0, False
+        steps, calls, hold, ahold = [], 0, False, False
         ncalls = rng.randint(3, 9)
         while calls < ncalls:
             x = rng.random()
-            if x < 0.12:
+            if x < 0.05:
+                ahold = not ahold
+                steps.append({"k": "asynchold" if ahold else "asyncfree"})
+            elif x < 0.15:
                 hold = not hold
                 steps.append({"k": "hold" if hold else "free"})
             elif x < 0.40 and hold:
@@ -621,6 +627,8 @@ def al_random(rng, n):
                 steps.append(al_call(calls, op, rng.choice(args)))
         if hold:
             steps += [{"k": "loop"}] * rng.randint(0, 4) + [{"k": "free"}]
+        if ahold:
+            steps += [{"k": "asyncfree"}, al_call(calls + 1, "GetRemoteCandidates")]
         out.append({"handler": rng.random() < 0.6, "steps": steps, "tag": "random"})
     return out
 
@@ -632,7 +640,7 @@ def al_validate(work, trace_lines, tag, stats, timeout):
         for e in trace_lines:
             f.write(json.dumps(e) + "\n")
     cfg = "AgentApiTrace_%s.cfg" % tag
-    write_cfg(work.path(cfg), {"TraceFile": '"%s"' % path, "Procs": tla_set(AL_PROCS), "OpSet": "{}", "MaxCycles": "12"},
+    write_cfg(work.path(cfg), {"TraceFile": '"%s"' % path, "Procs": tla_set(AL_PROCS), "OpSet": "{}", "MaxCycles": "12", "Defects": "{}"},
               ["SPECIFICATION TSpec", "INVARIANT HWM", "POSTCONDITION Accepted", "CHECK_DEADLOCK FALSE"])
     r = v.tlc(work.dir, "AgentApiTrace", cfg=cfg, workers=1, timeout=timeout, dfs=True, heap="8g")
     if r.error:
